@@ -30,6 +30,8 @@ type Prog struct {
 	Funcs   []*ssa.Function // every function of the module (methods, closures), sorted by name
 	Inits   []*ssa.Function // synthetic package initialisers of the module packages
 	Renamed []string        // roles that were bound to a differently named function (see roles.go)
+	Inlined    []string     // helper calls replaced by the helper's body (see inline.go)
+	NotInlined []string     // new functions that stay calls, with the reason
 	byName  map[string]*ssa.Function
 	CG      *callgraph.Graph
 	astDecl map[*ssa.Function]*ast.FuncDecl
@@ -117,9 +119,10 @@ func loadProg(repo string) *Prog {
 			p.astDecl[fn] = d
 		}
 	}
-	p.CG = vta.CallGraph(all, cha.CallGraph(prog))
 	p.resolveRoles()
 	p.resolveFields()
+	p.inlineHelpers()
+	p.CG = vta.CallGraph(all, cha.CallGraph(prog))
 	return p
 }
 
